@@ -10,7 +10,7 @@ package main
 //   life cancel-send <len>                         SendPackage with a cancelled context
 //   life closed-ops <chan>                         every call after Close
 //   life double-close <chan>                       Close twice
-//   life conn-close <nchan> <pending>              Conn.Close with <pending> unread packages per channel
+//   life conn-close <nchan> <pending> [<gap>]      Conn.Close with <pending> unread packages per channel; logical channel <gap> closed before
 //   life close-pending <chan> <pending> <cap>      Close with <pending> packages of an abandoned response, queue capacity <cap>
 //   life reader-exit <errors>                      peer closes, <errors> read errors unconsumed, then Conn.Close: reader ends
 // Answer: a list of `<call>=<class>` with class ∈ pkg | ctx | closed | err | ok | nothing, `blocked` when the
@@ -294,6 +294,15 @@ func lifeImpl(line string) string {
 		for _, c := range chans {
 			waitQueued(c, pending)
 		}
+		// an optional fourth argument: that logical channel was closed earlier, so the connection's set of
+		// channel ids has a gap when it is closed
+		if len(f) > 4 {
+			if g := arg(4); g > 0 && g < nchan {
+				if r := watchdog(wd, func() string { chans[g].Close(); return "ok" }); r != "ok" {
+					return r
+				}
+			}
+		}
 		if nchan > 0 {
 			e.mc.feed(packetize(wDone(0xFD, 0, 0, 0), nil, 4, 0)) // logout answer for channel 0
 		}
@@ -565,6 +574,10 @@ func init() {
 					emit(Case{Line: fmt.Sprintf("life conn-close %d %d", nc, p), Kind: "conn-close"})
 				}
 			}
+			// a logical channel closed earlier: the ids of the remaining channels have a gap
+			for _, c := range [][2]int{{3, 1}, {4, 1}, {4, 2}, {5, 3}, {2, 1}} {
+				emit(Case{Line: fmt.Sprintf("life conn-close %d %d %d", c[0], 2*(c[1]%2), c[1]), Kind: "conn-close-gap"})
+			}
 			caps := []int{2, 5}
 			if tier == "thorough" {
 				caps = []int{1, 2, 5, 20, 100}
@@ -615,12 +628,12 @@ func init() {
 			}
 			return f[1] + ":" + clause
 		},
-		Nontrivial: func(line, out string) bool { return true },
-		Rule:       "scenario scripts on the real Conn/Channel over the in-memory transport, each call under a 1.5 s watchdog: receives with a cancelled call/connection context (0..5 queued, 0..3 arriving packages, NextPackage and NextPackageUntil), sends with a cancelled context (lengths around the packet body size) followed by a live send, sends whose caller's / connection's context is cancelled while packet k of the message is written (every k), every call after Close, double Close, Close of the channel / the connection from a failing callback while the rest of the response is outstanding, Conn.Close with 0..3 channels, Close with an abandoned response of capacity-2..capacity+8 packages, reader exit after 0..10 unconsumed read errors and after 3..15 packets for an unregistered channel",
-		Serial:     true,
-		Timed:      true, // answers depend on a 1.5 s watchdog: a failing case is re-run alone before it counts
-		NoShrink:   true,
-		Timeout:    20 * time.Second,
+		Nontrivial:  func(line, out string) bool { return true },
+		Rule:        "scenario scripts on the real Conn/Channel over the in-memory transport, each call under a 1.5 s watchdog: receives with a cancelled call/connection context (0..5 queued, 0..3 arriving packages, NextPackage and NextPackageUntil), sends with a cancelled context (lengths around the packet body size) followed by a live send, sends whose caller's / connection's context is cancelled while packet k of the message is written (every k), every call after Close, double Close, Close of the channel / the connection from a failing callback while the rest of the response is outstanding, Conn.Close with 0..3 channels, Close with an abandoned response of capacity-2..capacity+8 packages, reader exit after 0..10 unconsumed read errors and after 3..15 packets for an unregistered channel",
+		Serial:      true,
+		Timed:       true, // answers depend on a 1.5 s watchdog: a failing case is re-run alone before it counts
+		NoShrink:    true,
+		Timeout:     20 * time.Second,
 		Assumptions: []string{"wall-clock promptness is observed with a 1.5 s watchdog / 0.5 s slowness bound; the Lean model counts steps", "Go's select picks any ready case"},
 	})
 	_ = sort.Strings
